@@ -6,12 +6,17 @@ import random
 import sympy as sp
 
 
-def _samples(symbols, n, seed=20240607):
+def _samples(symbols, n, seed=20240607, domain=None):
+    """domain: optional callable(symbol) -> (lo, hi) in hundredths (ints) or None: the quantifier's range for that symbol"""
     rnd = random.Random(seed)
     out = []
     for _ in range(n):
         env = {}
         for s in sorted(symbols, key=lambda x: x.name):
+            rng = domain(s) if domain is not None else None
+            if rng is not None:
+                env[s] = sp.Rational(rnd.randint(int(rng[0]), int(rng[1])), 100)
+                continue
             if s.is_integer:
                 env[s] = sp.Integer(rnd.randint(1, 7) if s.is_nonnegative or s.is_positive else rnd.randint(-6, 7))
             elif s.is_positive or s.is_nonnegative:
@@ -36,12 +41,12 @@ def simp(expr):
     return sp.simplify(expr)
 
 
-def decide_zero(expr, tries=6):
+def decide_zero(expr, tries=6, domain=None):
     """('zero', None) | ('nonzero', witness env, value) | ('unknown', reason)."""
     if isinstance(expr, sp.MatrixBase):
         worst = ('zero', None)
         for e in expr:
-            v = decide_zero(e, tries)
+            v = decide_zero(e, tries, domain)
             if v[0] == 'nonzero':
                 return v
             if v[0] == 'unknown':
@@ -60,7 +65,7 @@ def decide_zero(expr, tries=6):
         return ('unknown', 'uninterpreted function in the residual')
     syms = s.free_symbols
     evaluated = 0
-    for env in _samples(syms, tries):
+    for env in _samples(syms, tries, domain=domain):
         try:
             v = sp.N(s.subs(env), 40)
         except Exception:
@@ -81,9 +86,9 @@ def witness_text(env):
     return ', '.join('%s = %s' % (k, v) for k, v in sorted(env.items(), key=lambda kv: kv[0].name))[:300]
 
 
-def check_zero(R, expr, rule, inst, what, detail, loc=None, engine='E-ALG', extra_ok=True, extra_what=None):
+def check_zero(R, expr, rule, inst, what, detail, loc=None, engine='E-ALG', extra_ok=True, extra_what=None, domain=None):
     """HOLDS / VIOLATED (with witness) / UNDECIDED for `expr == 0`.  extra_ok: an additional exact side condition (False -> VIOLATED with extra_what)."""
-    v = decide_zero(expr)
+    v = decide_zero(expr, domain=domain)
     if v[0] == 'zero':
         if extra_ok:
             R.holds(rule, inst, detail, loc, engine)
